@@ -4,6 +4,7 @@ import (
 	"bytes"
 	"fmt"
 	"os"
+	"sort"
 	"time"
 
 	"github.com/KevoDB/kevo/pkg/common/iterator"
@@ -40,7 +41,20 @@ func (e *DefaultCompactionExecutor) CompactFiles(task *CompactionTask) ([]string
 
 	// Add iterators from both levels
 	for level := 0; level <= task.TargetLevel; level++ {
-		for _, file := range task.InputFiles[level] {
+		files := task.InputFiles[level]
+		if level == 0 {
+			// Level-0 files overlap, and the merged iterator lets earlier
+			// sources win: feed them newest first (highest file number,
+			// then latest timestamp), not in selection order (oldest first)
+			files = append([]*SSTableInfo(nil), files...)
+			sort.SliceStable(files, func(i, j int) bool {
+				if files[i].Sequence != files[j].Sequence {
+					return files[i].Sequence > files[j].Sequence
+				}
+				return files[i].Timestamp > files[j].Timestamp
+			})
+		}
+		for _, file := range files {
 			// We need an iterator that preserves delete markers
 			if file.Reader != nil {
 				iterators = append(iterators, file.Reader.NewIterator())
